@@ -34,7 +34,7 @@ def sample_point(rng):
     return {k: rng.choice(v) for k, v in LATTICE.items()}
 
 
-def run_point(run, drv, rng, pt, stream="lattice", container="plain"):
+def run_point(run, drv, rng, pt, stream="lattice", container="plain", other_container=None):
     from tensordict import TensorDict
     front, named, nested_keys, nthreads, node_as_leaf = pt["front"]
     ids = itertools.count(1)
@@ -127,6 +127,11 @@ def run_point(run, drv, rng, pt, stream="lattice", container="plain"):
         self_obj, unwrap = c20_containers.wrap(container, self_td, s, rng)
         case["container"] = container
         run.count(f"{stream}.container", container)
+    if other_container is not None:
+        import c20_containers
+        others = [c20_containers.wrap(other_container, o, os_, rng)[0] if o.keys() else o for o, os_ in zip(others, ostructs)]
+        case["other_container"] = other_container
+        run.count(f"{stream}.other_container", other_container)
     before_self = {p: self_td.get(p) for p in L.leaf_paths(s)}
     before_vals = {p: int(v.reshape(-1)[0]) for p, v in before_self.items()}
     before_out = {}
@@ -158,7 +163,7 @@ def run_point(run, drv, rng, pt, stream="lattice", container="plain"):
         run.count(f"{stream}.error_precedence_not_modelled", "refine_names RuntimeError before a later KeyError")
         model = impl
     run.corr(stream, case, impl, model)
-    if container != "plain":
+    if container != "plain" or other_container is not None:
         return case, impl, model
     # ---- oracle (leaves-only mode): reference over nested dicts + identity / frame / metadata
     oracle(run, case, pt, s, ostructs, drop, self_td, others, out_td, out_struct, res, err, impl, rec, before_self, before_vals, before_out,
@@ -331,6 +336,13 @@ def main():
         pt = sample_point(rng)
         if run_point(run, drv, rng, pt, stream="containers", container="params") is not None:
             done += 1
+    # ... and the same three container kinds as OPERANDS of a plain tensordict (entries found by key through their `_get_str`)
+    for kind in ("tensorclass", "sub_td", "params"):
+        done = 0
+        while done < (120 if run.tier == "quick" else 1500):
+            pt = sample_point(rng)
+            if run_point(run, drv, rng, pt, stream="containers", other_container=kind) is not None:
+                done += 1
     import c20_lazy
     c20_lazy.run_lazy_lattice(run, drv, rng, 400 if run.tier == "quick" else 4000)
     c20_lazy.run_validation_oracle(run, rng, 30 if run.tier == "quick" else 200)
